@@ -11,9 +11,8 @@ let fnv (l : n list) =
   List.iter (fun x -> h := ((!h lxor (int_of_n x)) * 16777619) land 0xFFFFFFFF) l; !h
 
 let xfer proto script =
-  (* "tls13c" = tls13_send with the 2^14 clamp of tls_send (the repair proposed for DESIGN section 5 #22) *)
-  let clamp, cap = if proto = "tls13" then None, Some cap13 else Some max_plain, None in
-  let proto = if proto = "tls13c" then "tls13" else proto in
+  (* tls_send and (since commit c5b289c) tls13_send clamp at 2^14: run12 / run13 of Tls/Stream.v *)
+  let clamp, cap = Some max_plain, None in
   let st = [| dir_init; dir_init |] in           (* direction 0 = client->server, 1 = server->client *)
   let nw = [| 0; 0 |] in
   let wire = [| []; [] |] in
